@@ -2,7 +2,7 @@
 import json, os
 
 from . import extract
-from .rules import lock7, seq
+from .rules import lock7, seq, mutex, ptr, lockword
 from . import olcrules
 
 VERIF = os.path.dirname(os.path.dirname(os.path.abspath(__file__)))
@@ -111,6 +111,43 @@ PROPERTIES['C16'] = {
                    'asserts to be zero when the node is freed - the one internal assertion that legal usage (scan, then remove) could trip.',
     'decides': 'balance of the debug read-section accounting on every path (typestate)',
     'does_not_decide': 'equality of results across SIMD variants; validity of every other assertion',
+}
+
+PROPERTIES['C07'] = {
+    'level': 'proof',
+    'configs': two,
+    'rules': [R(lockword.lw)],
+    'explanation': 'The optimistic lock is one atomic word; mutual exclusion of write guards, snapshot consistency of validated read sections, upgrade-iff-unchanged and finality of the obsolete state follow from five premises by a short written argument '
+                   '(DESIGN.md, C07: free words strictly increase by 4, the write bit is set between a successful upgrade and the unlock, the obsolete word is odd and terminal; Boehm\'s seqlock argument for the orders). This check discharges the premises on the source: '
+                   'LW-1 the word is written only by {CAS w -> w.set_locked_bit(), store old+2, store obsolete constant}, reachable only through write_guard, which deactivates itself; LW-2 value facts of is_free / is_write_locked / is_obsolete / set_locked_bit by evaluating the expression trees over the finite quotient (v mod 4, v = obsolete word); '
+                   'LW-3 recorded words are free words (try_read_lock path conditions judged by admitted word classes; rehydrate takes only rcs.get() values); LW-4 memory-order table (acquire load / acquire fence before the validating load / acquire CAS / release stores, protected fields are std::atomic); LW-5 whole-word equality in check / try_read_unlock.',
+    'decides': 'all premises of the lock-level argument (LW-1..LW-5), every configuration in the thorough tier',
+    'does_not_decide': 'the C++ memory-model argument itself (trusted: Boehm 2012), 64-bit wrap of the version; the use of the lock by the tree (C03/C14)',
+    'trusted_base': ['clang 14 front end', 'usa extractor and rule engine', 'written argument in DESIGN.md section 6 (C07)', 'C++11 memory model / seqlock argument (Boehm, MSPC 2012)', 'the version counter does not wrap in 2^62 write cycles'],
+    'assumptions': ['UNODB_DETAIL_THREAD_SANITIZER builds (fence replaced by TSan annotations) are outside the configuration matrix'],
+}
+PROPERTIES['C13'] = {
+    'level': 'proof',
+    'configs': lambda tier: [B, D] if tier == 'quick' else [B, D, extract.flip(B, 'nostats'), extract.flip(D, 'nostats')],
+    'rules': [R(mutex.mx1), R(mutex.mx2)],
+    'explanation': 'MX-1: by forward dataflow over every member function of both mutex_db instantiations (scan member templates and statistics getters included), every access to the wrapped db happens while a NAMED std::lock_guard/std::unique_lock constructed on the one `mutex` member is alive and owning '
+                   '(an unnamed temporary lock dies at the end of its statement and does not count; unlock() ends ownership). Hence every operation runs inside one critical section of one mutex: operations are totally ordered by lock acquisition and each behaves as the sequential db, i.e. linearizable. '
+                   'MX-2: path-sensitively on the has-value test of the lookup result, get_internal returns std::move(guard) (still owning) exactly on has-value paths and an empty lock exactly on no-value paths; no other member returns a lock type.',
+    'decides': 'atomicity of every mutex_db operation; lock handed out exactly on a hit',
+    'does_not_decide': 'sequential correctness of db (C01), correctness of std::mutex',
+    'trusted_base': ['clang 14 front end', 'usa extractor and rule engine', 'std::mutex / std::lock_guard / std::unique_lock semantics', 'sequential correctness of unodb::db'],
+}
+PROPERTIES['C17'] = {
+    'level': 'proof',
+    'configs': lambda tier: [B, D] if tier == 'quick' else [B, D, extract.flip(B, 'nostats'), extract.flip(D, 'nostats')],
+    'rules': [R(ptr.ptr1), R(ptr.ptr2), R(ptr.ptr3), R(ptr.ptr4)],
+    'explanation': 'PTR-1: each operator of qsbr_ptr has, structurally, the shape of the same raw-pointer operator (or the listed delegation: postfix -> prefix, +/- -> +=/-=, n+p -> p+n), checked operator by operator against a specification table. '
+                   'PTR-2 (assertion-enabled configurations): every member function that changes the wrapped address unregisters the old value before and registers the new value after on every path, transfers (std::exchange) move the registration, constructors register once, the destructor unregisters once, '
+                   'the null filter forwards exactly the non-null pointers, and the per-thread registry inserts once and erases exactly ONE element (erase by iterator) - so after every member function the registry equals the multiset of live non-null wrapper values; NDEBUG configurations contain no tracking. '
+                   'PTR-3: qsbr_ptr_span stores data()/size() and reproduces them. PTR-4: quiescent / qsbr_pause / qsbr_resume assert registry emptiness before any state change.',
+    'decides': 'operator homomorphism; exact liveness tracking; span mapping; the three rejection sites',
+    'does_not_decide': 'std::unordered_multiset itself; that the assertion macro aborts',
+    'trusted_base': ['clang 14 front end', 'usa extractor and rule engine', 'std::unordered_multiset', 'assert() aborts on failure'],
 }
 
 NOT_APPLICABLE = {}
